@@ -180,7 +180,15 @@ fn fmt_hms(ns: u64) -> String {
 
 fn gen(seed: u64, family: &str, tier: Tier) -> Case {
     let mut r = Rng::new(seed ^ fnv64("C10"));
-    let gp = GraphParams { p_no_dead_ends: if family == "yens" { 1.0 } else if family == "deadends" { 0.0 } else { 0.8 }, p_disconnected: if family == "yens" { 0.0 } else { 0.25 }, ..graph_params(tier) };
+    let mut gp = GraphParams { p_no_dead_ends: if family == "yens" { 1.0 } else if family == "deadends" { 0.0 } else { 0.8 }, p_disconnected: if family == "yens" { 0.0 } else { 0.25 }, ..graph_params(tier) };
+    // family reopen (round 7): small dense networks whose distance estimate overshoots wildly (every edge far
+    // shorter than the straight line, estimate scaled up): the search re-opens vertices again and again and takes
+    // more loop turns than the network has vertices - under iteration limits around that number
+    let reopen = family == "reopen";
+    let family = if reopen { "iterations" } else { family };
+    if reopen {
+        gp = GraphParams { nv: (5, 10), extra_edge_factor: 4.0, p_disconnected: 0.0, p_no_dead_ends: 1.0 };
+    }
     let mut w = World::gen_graph(&mut r, &gp);
     if family == "deadends" {
         // about a third of the vertices lose every outgoing edge
@@ -205,7 +213,26 @@ fn gen(seed: u64, family: &str, tier: Tier) -> Case {
     let limit_s = *r.pick(&[0u64, 1, 1, 2, 60]);
     let freq = *r.pick(&[1u64, 1, 2, 3, 5, 8]);
     let runtime = json!({"type": "query_runtime", "limit": fmt_hms(limit_s * 1_000_000_000), "frequency": freq});
-    let iters = json!({"type": "iterations", "limit": if r.chance(0.05) { *r.pick(&[1u64 << 40, i64::MAX as u64]) } else { r.below(14) }});
+    // (round 7: limits around the number of vertices as well - a search with an inconsistent estimate re-opens
+    // vertices and takes more turns than the network has vertices - drawn from a stream of their own)
+    let mut r7 = Rng::new(seed ^ fnv64("C10-limits-around-n"));
+    let around_n = r7.chance(0.35) || reopen;
+    let nv = w.nv() as u64;
+    let iters = json!({"type": "iterations", "limit": if r.chance(0.05) { *r.pick(&[1u64 << 40, i64::MAX as u64]) } else if around_n { let x = r.below(14); let _ = x; nv.saturating_sub(1) + r7.below(nv + 4) } else { r.below(14) }});
+    if (family == "iterations" || family == "combined" || family == "size") && (reopen || r7.chance(0.5)) {
+        // an estimate scaled up (weight_factor above 1) is no lower bound any more: vertices are re-opened
+        w.algorithm = json!({"type": "a*", "weight_factor": *r7.pick(&[1.0, 1.5, 3.0, 10.0])});
+        // ... and so do edges that are shorter than the straight line between their ends (survey errors, tunnels
+        // recorded by their horizontal projection): the distance estimate overshoots
+        if reopen {
+            w.algorithm = json!({"type": "a*", "weight_factor": *r7.pick(&[1.0, 3.0, 10.0, 100.0])});
+        }
+        for e in w.edges.iter_mut() {
+            if reopen || r7.chance(0.5) {
+                e.2 = crate::world::q6(e.2 * (0.02 + 0.3 * r7.f64()));
+            }
+        }
+    }
     let size = json!({"type": "solution_size", "limit": if r.chance(0.05) { *r.pick(&[1u64 << 40, i64::MAX as u64]) } else { r.below(14) }});
     if family == "ksp" {
         // two sub-searches per query (forward, reverse), each with a budget of its own; no scheduled
@@ -375,7 +402,7 @@ fn gen(seed: u64, family: &str, tier: Tier) -> Case {
     Case {
         check: "C10".into(),
         seed,
-        family: family.to_string(),
+        family: if reopen { "reopen".to_string() } else { family.to_string() },
         world: w,
         batches: vec![batch],
         workers: r.range(1, 5) as usize,
@@ -1010,8 +1037,11 @@ fn judge(case: &Case, obs: &Obs) -> (Vec<Violation>, BTreeMap<String, u64>, bool
                         }
                     }
                 }
-                Ok((Predicted::Completed, _)) => {
+                Ok((Predicted::Completed, turns)) => {
                     bump("walk_completed", 1);
+                    if turns > w.nv() as u64 {
+                        bump("searches_with_more_turns_than_vertices", 1);
+                    }
                     if terminated {
                         v.push(Violation { class: "terminated-without-exhaustion".into(), detail: format!("query {} was stopped ({}) although no limit was exhausted at any scheduled check", qid, err) });
                     }
@@ -1035,7 +1065,7 @@ impl Check for C10 {
         "C10"
     }
     fn families(&self, _tier: Tier) -> Vec<&'static str> {
-        vec!["runtime", "runtime", "combined", "iterations", "size", "combined", "ksp", "edge", "combined", "yens", "neighbour", "deadends", "ksp"]
+        vec!["runtime", "reopen", "combined", "iterations", "size", "combined", "ksp", "edge", "combined", "yens", "neighbour", "deadends", "ksp"]
     }
     fn default_runs(&self, tier: Tier) -> u64 {
         match tier {
